@@ -114,6 +114,9 @@ func genCondHist(r *rand.Rand, id string, tier string) string {
 			if r.Intn(2) == 0 {
 				// keep a copy of the handle (what Push stores, what `held := c` keeps), then re-initialise the variable: the
 				// documented assemble / store / Init / assemble-the-next loop. The copy holds what it had accepted.
+				if r.Intn(3) == 0 {
+					ops = append(ops, "ro 1") // Init replaces the instance of the variable; a read-only instance someone else holds stays as it is
+				}
 				ops = append(ops, "hold", []string{"init", fmt.Sprintf("cond %s %s %s", genKwArg(r), genOpArg(r), genExArg(r))}[r.Intn(2)])
 			} else {
 				ops = append(ops, fmt.Sprintf("cond %s %s %s", genKwArg(r), genOpArg(r), genExArg(r)))
